@@ -14,7 +14,7 @@ _T_CACHE = {}
 
 
 def plan_T(name, **kw):
-    key = (name, tuple(sorted(kw.items())))
+    key = (name, repr(sorted(kw.items())))
     if key not in _T_CACHE:
         T, obs = sweep.dry_run_steps(corpus.CORPUS[name], **kw)
         _T_CACHE[key] = (T, len(obs.ledger), len(obs.msgs))
